@@ -287,6 +287,24 @@ func c11Run(c *core.Ctx) *core.Result {
 	}
 	expView := mkView(naivePaths)
 
+	// --- a first attempt that breaks: the same process sent the unfiltered
+	// tree a moment ago over a stream that failed during the listing. What
+	// that walk learnt about link groups must not reach the next one.
+	if br := core.NewRand(core.Mix(c.Seed, "C11-broken-first-attempt", c.Index)); br.P(1, 4) {
+		k := int64(br.Range(1, 14))
+		bd := filepath.Join(c.Dir, "dest-broken")
+		os.Mkdir(bd, 0755)
+		bres := runSync(syncOpt{Cfg: wire.Config{Cap: 8, Fault: func(end, op string, idx int64) error {
+			if end == "S" && op == "send" && idx >= k {
+				return errInjected
+			}
+			return nil
+		}}, Src: base, Dest: bd, TeardownWhenStuck: true})
+		if bres.SendErr != nil {
+			r.Count("transfers_after_a_broken_first_attempt", 1)
+		}
+		os.RemoveAll(bd)
+	}
 	// --- transfer
 	dest := filepath.Join(c.Dir, "dest")
 	os.Mkdir(dest, 0755)
